@@ -17,7 +17,21 @@ from harness.common import Model
 
 PID = "C07"
 TRANSLATORS = []
-KNOWN = []  # no violation of the property on the unchanged tree; see ALIAS_NOTE
+# Genuine defects found on the unchanged tree.  Until the coordinator moves an entry to
+# known_findings.json (or repairs halmos), a failing input whose sig matches is printed as
+# KNOWN-FINDING and recorded in the evidence instead of failing the run; any other
+# violation of the property still fails.
+KNOWN = [
+    {
+        "id": "C07-F1",
+        "property": "C07",
+        "what": "ByteVec.__setitem__ with a slice whose stop is an explicit 0 (`bv[a:0] = v`) computes `stop = key.stop or self.length`, "
+                "so the write goes to [a, len) instead of being rejected (stop < start) or being the no-op [0:0]; "
+                "e.g. bv = ByteVec(b'\\x01\\x02\\x03\\x04'); bv[2:0] = b'\\x08\\x09' leaves 01 02 08 09 (a flat array rejects it), and bv[0:0] = b'' raises ValueError. "
+                "__getitem__ handles the same key correctly (`key.stop if key.stop is not None`). The sugar is not used inside halmos (set_slice is called directly).",
+        "match": {"observable": "setitem-explicit-stop-0"},
+    },
+]
 
 PARTIAL = (
     "CPython aliasing outside the modelled object store (two Exec objects holding the same ByteVec by reference) "
@@ -261,9 +275,20 @@ def impl_run(case):
                 if k == "new":
                     objs.append(ByteVec())
                 elif k == "copy":
-                    objs.append(objs[st[1]].copy())
+                    if len(st) > 2 and st[2] == "state":
+                        # the way a path fork copies memory: State.__deepcopy__
+                        import copy as _copy
+
+                        from halmos.sevm import State
+                        objs.append(_copy.deepcopy(State(stack=[], memory=objs[st[1]])).memory)
+                    else:
+                        objs.append(objs[st[1]].copy())
                 elif k == "sliceof":
-                    objs.append(objs[st[1]].slice(st[2], st[3]))
+                    if len(st) > 4 and st[4] == "state" and st[3] >= st[2]:
+                        from halmos.sevm import State
+                        objs.append(State(stack=[], memory=objs[st[1]]).mslice(st[2], st[3] - st[2]))
+                    else:
+                        objs.append(objs[st[1]].slice(st[2], st[3]))
                 elif k == "append":
                     objs[st[1]].append(mkval(objs, st[2], k))
                 elif k == "setbyte":
@@ -281,6 +306,9 @@ def impl_run(case):
                 elif k == "setslice":
                     if len(st) > 5 and st[5] == "setitem" and st[3]:
                         objs[st[1]][st[2]:st[3]] = mkval(objs, st[4], k)
+                    elif len(st) > 5 and st[5] == "state":
+                        from halmos.sevm import State
+                        State(stack=[], memory=objs[st[1]]).set_mslice(st[2], mkval(objs, st[4], k))
                     else:
                         objs[st[1]].set_slice(st[2], st[3], mkval(objs, st[4], k))
                 elif k == "setword":
@@ -517,7 +545,7 @@ class Gen:
         o = r.choice(recv)
         if x < 0.12:
             src = r.choice(range(len(self.len)))
-            self.steps.append(["copy", src])
+            self.steps.append(["copy", src, r.choice(["call", "state"])])
             self.len.append(self.len[src])
             if src in self.frozen:
                 pass
@@ -526,7 +554,7 @@ class Gen:
             src = r.choice(range(len(self.len)))
             a = r.choice(self.grid)
             b = r.choice(self.grid + [a + r.choice(self.lens)])
-            self.steps.append(["sliceof", src, a, b])
+            self.steps.append(["sliceof", src, a, b, r.choice(["call", "state"])])
             self.len.append(max(0, b - a))
             return
         if x < 0.3:
@@ -567,7 +595,10 @@ class Gen:
         if r.random() < 0.05:
             n = n + r.choice([1, -1]) if n > 0 else 1  # wrong length
         v = self.value(max(0, n), o)
-        self.steps.append(["setslice", o, a, b, v, r.choice(["call", "call", "setitem"])])
+        form = r.choice(["call", "call", "setitem"])
+        if b >= a and n == b - a and v[0] != "leaf" and r.random() < 0.5:
+            form = "state"  # State.set_mslice(loc, data)
+        self.steps.append(["setslice", o, a, b, v, form])
         if b > a and n == b - a:
             self.len[o] = max(self.len[o], b)
 
@@ -635,7 +666,7 @@ def gen_exhaustive(grid, depth, with_sym=True):
         for seq in itertools.product(range(len(ops)), repeat=d):
             steps = list(prefix) + [ops[i](k) for k, i in enumerate(seq)]
             n = max(grid) + 2
-            steps += [["get", 0, off] for off in range(0, n + 1)] + [["unwrap", 0], ["word", 0, 0], ["copy", 0], ["sliceof", 0, grid[1], n]]
+            steps += [["get", 0, off] for off in range(0, n + 1)] + [["unwrap", 0], ["word", 0, 0], ["copy", 0, "state"], ["sliceof", 0, grid[1], n, "state"]]
             cases.append({"tag": "exhaustive", "steps": steps})
     return cases, len(ops)
 
@@ -763,6 +794,69 @@ def top_chunks(lay):
     return out
 
 
+def setitem_probe(rep, exe):
+    """bv[start:stop] = bytes over a grid of optional bounds; implementation vs model (must agree,
+    defect included) vs flat slice assignment (deviations are failing inputs)."""
+    from halmos.bytevec import ByteVec
+
+    cases = []
+    for init in ([], [1, 2, 3, 4]):
+        for start in (None, 0, 1, 2, 4, 5):
+            for stop in (None, 0, 1, 2, 4, 6):
+                for n in range(0, 5):
+                    cases.append((init, start, stop, [0x80 + i for i in range(n)]))
+    calls = []
+    for init, start, stop, val in cases:
+        calls.append(("c07_setitem", [0 if start is None else 1, start or 0, 0 if stop is None else 1, stop or 0, len(init)] + init + [len(val)] + val))
+    model = Model(exe).batch(calls) if exe is not None else None
+    known_hits = {}
+    for i, (init, start, stop, val) in enumerate(cases):
+        case = {"tag": "setitem", "init": init, "start": start, "stop": stop, "value": val}
+        bv = ByteVec(bytes(init)) if init else ByteVec()
+        try:
+            bv[slice(start, stop)] = bytes(val)
+            raised = False
+        except ValueError:
+            raised = True
+        except Exception as e:  # noqa: BLE001
+            raised = f"{type(e).__name__}"
+        u = bv.unwrap()
+        got = (raised, list(u) if isinstance(u, bytes) else str(u))
+        a = 0 if start is None else start
+        b = len(init) if stop is None else stop
+        sl, sr = fa_set_slice(list(init), a, b, val)
+        want = (sr, sl)
+        rep.case(case, nontrivial=bool(init) and a < b)
+        rep.count("tag", "setitem")
+        if got != want:
+            sig = {"observable": "setitem-explicit-stop-0" if stop == 0 else "setitem", "op": "setitem"}
+            k = next((k for k in KNOWN if common.finding_matches(k, {"sig": sig})), None)
+            what = f"ByteVec({bytes(init)!r})[{start}:{stop}] = {bytes(val)!r}: implementation (raised, content) = {got}, flat slice assignment = {want}"
+            if k is not None:
+                known_hits.setdefault(k["id"], []).append(case)
+            else:
+                rep.fail("failing-input", what, case={"case": case, "implementation": got, "spec": want}, sig=sig)
+            # the model must reproduce the defect
+        if model is not None:
+            m = model[i]
+            mgot = (bool(m[0]), m[2:2 + m[1]]) if m else None
+            if mgot != (bool(got[0]), got[1]) or (got[0] not in (False, True)):
+                rep.fail("broken-tie", f"model and implementation disagree on {case}: implementation {got}, model {mgot}", case={"case": case})
+    # the witness of C07_setitem_refuted must still show on the implementation
+    bv = ByteVec(bytes([1, 2, 3, 4]))
+    try:
+        bv[2:0] = bytes([8, 9])
+        w = list(bv.unwrap())
+    except Exception as e:  # noqa: BLE001
+        w = type(e).__name__
+    if w != [1, 2, 8, 9]:
+        rep.fail("broken-tie", f"the witness of C07_setitem_refuted no longer shows on the implementation (got {w}): the model of __setitem__ is stale", case={"witness": w})
+    for kid, hits in known_hits.items():
+        k = next(k for k in KNOWN if k["id"] == kid)
+        print(f"KNOWN-FINDING: property={PID} {kid}: {k['what']}")
+    rep.coverage["known_findings_in_module"] = {kid: {"hits": len(h), "example": h[0]} for kid, h in known_hits.items()}
+
+
 def short(case):
     s = case["steps"]
     return case if len(str(s)) < 1500 else {"tag": case["tag"], "steps": "long:" + common.case_hash(s)}
@@ -781,8 +875,17 @@ def run(rep, tier):
     cases, exh_note = gen_cases(tier, r)
     probe = ALIAS_PROBE
     allcases = cases + [probe]
-    with Pool(min(16, os.cpu_count() or 4)) as pool:
-        impl = pool.map(impl_run, allcases, chunksize=32)
+    # import once in the parent: forked workers inherit the loaded modules
+    import z3  # noqa: F401
+
+    import halmos.bytevec  # noqa: F401
+    import halmos.sevm  # noqa: F401
+
+    if len(allcases) < 4000:
+        impl = [impl_run(c) for c in allcases]
+    else:
+        with Pool(min(16, os.cpu_count() or 4)) as pool:
+            impl = pool.map(impl_run, allcases, chunksize=256)
     model_res = None
     if exe is not None:
         res = Model(exe).parallel_batch([("c07_run", enc_case(c)) for c in allcases])
@@ -809,6 +912,7 @@ def run(rep, tier):
                 nbad += 1
                 if nbad <= 10:
                     rep.fail("broken-tie", f"model and implementation disagree (flat reference agrees with implementation) at step {d['step']} of {str(c['steps'])[:400]}: {d}", case={"case": c, **d})
+    setitem_probe(rep, exe)
     # alias probe: model must predict what the implementation does; deviation from value semantics recorded
     pi = len(cases)
     dspec = compare_spec(probe, impl[pi], spec_run(probe))
